@@ -21,6 +21,8 @@ func init() {
 			"The version handed to serialize and to the response object is the selected one. NOT decided: capability / session-id extraction for arbitrary hello layouts (regular expressions), read segmentation.",
 		Assumptions: []string{"ServerHasCapability is membership in the advertised list (checked: loop returns true on equality only)", "regexp semantics opaque"},
 		Mutants: []Mutant{
+			{ID: "C09-hello-raw-timeout", Desc: "the hello is read under the raw connection-wide timeout (0 expires at once)", Rule: "C09/deadline-resolved",
+				Edits: []Edit{{File: "driver/netconf/capabilities.go", Old: "\t\td.Channel.GetTimeout(d.Channel.TimeoutOps),\n", New: "\t\td.Channel.TimeoutOps,\n"}}},
 			{ID: "C09-password-prompt-unanchored", Desc: "the built-in password prompt pattern no longer has to end the line", Rule: "C09/password-prompt-anchored",
 				Edits: []Edit{{File: "channel/auth.go", Old: "(?im)(.*@.*)?password:\\s?$", New: "(?im)(.*@.*)?password:\\s*"}}},
 			{ID: "C09-greedy-capability", Desc: "capability capture made greedy", Rule: "C09/capability-capture",
@@ -140,6 +142,8 @@ func runC09(c *Ctx, r *Report) {
 	r.Rule("C09/capability-capture", "the capability pattern's capture is non-greedy or excludes '<', so adjacent capability elements are never merged whatever the hello layout", 1)
 	r.Rule("C09/has-capability", "ServerHasCapability is list membership by string equality (a longer URN with the base URN as prefix is a different capability)", 1)
 	r.Rule("C09/session-id-range", "the session-id conversion accepts the whole unsigned 32-bit range", 1)
+	r.Rule("C09/deadline-resolved", "every deadline the NETCONF driver sets up takes its duration from Channel.GetTimeout (a configured 0 means the maximum, for the hello exchange as for every RPC)", 2)
+	checkNetconfDeadlinesResolved(c, r, "C09/deadline-resolved")
 	r.Rule("C09/hello-required", "a server greeting without <hello> yields ErrNetconfError", 1)
 	r.Rule("C09/framing-follows-selection", "serialize and the response object are given the selected version", 2)
 
